@@ -80,7 +80,7 @@ with ws_property (inoneof : bool) (p : property) {struct p} : bool :=
   match p with
   | Property n rq op f =>
       field_ident n && negb (rq && op) &&
-      (if inoneof then negb op && negb (is_repeated f) && negb (str_eqb (snake n) (b "type")) else true) &&
+      (if inoneof then negb (is_repeated f) && negb (str_eqb (snake n) (b "type")) else true) &&
       match f with
       | FArray it | FMap it => ws_item it
       | _ => ws_item f
@@ -150,7 +150,7 @@ Definition ws_element (e : element) : bool :=
   end.
 
 Definition ws_file (f : jfile) : bool :=
-  forallb type_ident_or_seg (jf_dir f) &&
+  forallb type_ident_or_seg (jf_dir f) && file_lists_ok f &&
   match import_map (jf_imports f) [] with Ok _ => true | _ => false end &&
   forallb ws_element (jf_elements f).
 
